@@ -365,23 +365,23 @@ func c09Run(c *ctx, s c09Scenario, how string) {
 			fail("range-panics", fmt.Sprintf("on the collection in another initial order: %v", pv))
 		}
 	}
-	// the rule list is the caller's: Range neither rewrites it nor writes behind its end; and a
-	// page that Range returned can be given to Range again
+	// the rule list is the caller's: it means the same the next time it is used, and so does a
+	// longer list that shares its storage; a page that Range returned can be given to Range again
 	if key == "" {
 		if p, pv := guard(func() {
+			// a rule list with spare capacity, and a longer one built from it beforehand (they share storage)
 			buf := make([]string, len(s.rules), len(s.rules)+3)
 			copy(buf, s.rules)
-			for i := len(buf); i < cap(buf); i++ {
-				buf[:cap(buf)][i] = "sentinel"
-			}
+			longer := append(buf, "-id")
+			want := append(append([]string{}, s.rules...), "-id")
 			p1 := jsonapi.Range(s.build(), s.ids, flt, buf, s.size, 0)
-			if !reflect.DeepEqual(append([]string{}, buf...), append([]string{}, s.rules...)) {
-				fail("rules-changed", fmt.Sprintf("the caller's rule list %q became %q", s.rules, buf))
+			// the same list again gives the same page, the longer list what a list written afresh gives
+			if p1b := jsonapi.Range(s.build(), s.ids, flt, buf, s.size, 0); !reflect.DeepEqual(idsOf(p1), idsOf(p1b)) {
+				fail("rules-changed", fmt.Sprintf("the rule list %q, used a second time (now %q), gives %q instead of %q", s.rules, buf, idsOf(p1b), idsOf(p1)))
 			}
-			for i := len(buf); i < cap(buf); i++ {
-				if buf[:cap(buf)][i] != "sentinel" {
-					fail("rules-changed", fmt.Sprintf("Range wrote %q behind the end of the caller's rule list", buf[:cap(buf)][i]))
-				}
+			pl, pw := jsonapi.Range(s.build(), s.ids, flt, longer, s.size, 0), jsonapi.Range(s.build(), s.ids, flt, want, s.size, 0)
+			if !reflect.DeepEqual(idsOf(pl), idsOf(pw)) {
+				fail("rules-changed", fmt.Sprintf("a rule list built from %q before it was used reads %q after Range and gives %q instead of %q", s.rules, longer, idsOf(pl), idsOf(pw)))
 			}
 			if p1 != nil && withIDs {
 				// already selected, filtered and sorted: sorting it again by the same rules changes nothing
